@@ -128,7 +128,7 @@ CHECKS = {
             "14 write targets x 12 result variables x request form x switch scenario on one template; three steps; in_service "
             "profiles not enumerated",
             "TLC-checked cache-coherence model; TLC-enumerated configurations replayed on run_timeseries vs fresh power flows", "§4 C12"),
-    "C06": ("model_checking",
+    "C06": ("exploration",
             "SolversDef.tla classifies network classes (1-2 islands of a 4-bus template: radial / 1 loop / 2 loops, slack kind and "
             "position, PV gen, second slack, phase-shifting transformers, load level), transcribes the option resolution / dispatch / "
             "back-end selection of runpp and an index model of the bfsw BIBC/BCBV construction and its angle post-processing, and "
@@ -248,7 +248,7 @@ CHECKS = {
             "same vm/va at internal and boundary buses, original network unchanged.",
             "REI equivalents solved at 1e-8 MVA where 1e-9 is unreachable; non-converged equivalents counted",
             "TLC-enumerated boundary partitions run through get_equivalent; voltage equality decided by TLC", "§5 C28"),
-    "C32": ("model_checking",
+    "C32": ("exploration",
             "Curve.tla is a state machine over one characteristic object (class x interpolator kind x fill option x container x data shape chosen "
             "by TLC as small integer sequences; actions Eval (lazy interpolator cache) and Ser(route): net JSON, object JSON, deepcopy, pickle); "
             "CurveDef.tla chooses the abscissae and computes the required values (y_i at support points, enclosure by neighbouring support values "
@@ -256,7 +256,7 @@ CHECKS = {
             "objects: evaluates, support points reproduced, shape preserved, unchanged by every serialisation route (up to two in sequence).",
             "tolerances stated in CurveObs.tla; scalar and vector calls both checked",
             "TLC-generated characteristic histories replayed on real objects; values decided by TLC", "§5 C32"),
-    "C33": ("model_checking",
+    "C33": ("exploration",
             "DerDef.tla transcribes the DERController pipeline in integer units (q models, PQ/QV/PQV areas incl. the VDE-AR-N 4105/4110/4120 variants "
             "and STATCOM, area clipping, saturate_sn_mva with q / p priority, damping, convergence); Der.tla runs the control loop over area x "
             "operating-point region (indices into per-area corner tables) x q model x saturation x damping with model invariants (target / step / "
